@@ -14,3 +14,11 @@ pub use crate::generators::{BulletproofGens, BulletproofGensShare, PedersenGens}
 
 #[cfg(feature = "yoloproofs")]
 pub mod r1cs;
+
+/// Verification-only re-exports of crate-private items (guarded, add-only).
+#[cfg(feature = "verif-hooks")]
+pub mod verif_hooks {
+    pub use crate::inner_product_proof::{inner_product, InnerProductProof};
+    pub use crate::transcript::TranscriptProtocol;
+    pub use crate::util::exp_iter;
+}
